@@ -172,7 +172,7 @@ package ipnisync
 //@   at call newEncodedSignedHead#1: assert arg0 == rootCid && str(arg0.str) != str("") && str(arg1) == str(p.topic) && arg2 == p.privKey
 //@   at call newEncodedSignedHead#1: after ghost signed := result0
 //@   at call Write#1: assert arg1 == signed
-//@   ensures-local count("call:newEncodedSignedHead") <= 1 && count("call:Write") <= count("call:newEncodedSignedHead")
+//@   ensures-local count("call:newEncodedSignedHead") <= 1 && count("call:ResponseWriter.Write") <= count("call:newEncodedSignedHead")
 //@   ensures-local !held(p.lock)
 
 // The signed head is built from exactly the arguments given, then encoded.
